@@ -196,8 +196,75 @@ def check_clip(case):
     return out
 
 
+BENIGN = ('header-length-not-6', 'vlq-not-minimal:delta', 'vlq-not-minimal:meta-length', 'vlq-not-minimal:sysex-length')
+LAST_CLAIM = [False]
+
+
+def events_to_dicts(evs):
+    """Reference event tuples -> message dicts, or None when the event list contains something this decoder makes no
+    claim about (a known meta type whose payload has to be interpreted; only end_of_track, set_tempo, the text types and
+    unknown meta types are taken at byte level)."""
+    out = []
+    for kind, delta, info in evs:
+        if kind == 'midi':
+            d = R.ref_decode(info, time=delta)
+            if 'data' in d:
+                d['data'] = list(d['data'])
+            out.append(d)
+        elif kind == 'sysex':
+            out.append({'type': 'sysex', 'data': list(info), 'time': delta})
+        else:
+            mtype, pay = info
+            if mtype == 0x2F and not pay:
+                out.append({'type': 'end_of_track', 'time': delta})
+            elif mtype == 0x51 and len(pay) == 3:
+                out.append({'type': 'set_tempo', 'tempo': (pay[0] << 16) | (pay[1] << 8) | pay[2], 'time': delta})
+            elif mtype in M.BY_TYPE_BYTE and M.BY_TYPE_BYTE[mtype] in M.TEXT_TYPES:
+                name = M.BY_TYPE_BYTE[mtype]
+                out.append({'type': name, M.TEXT_TYPES[name][1]: bytes(pay).decode('latin1'), 'time': delta})
+            elif mtype not in M.KNOWN_TYPE_BYTES and mtype < 0x80:
+                out.append({'type': 'unknown_meta', 'type_byte': mtype, 'data': list(pay), 'time': delta})
+            else:
+                return None
+    return out
+
+
+def check_bytes(raw):
+    """Arbitrary bytes (coverage-guided fuzzing): when the independent strict decoder finds them to be a conformant
+    file - apart from the liberties the property allows a reader to meet - mido must load exactly the decoded events."""
+    LAST_CLAIM[0] = False
+    b = bytes(raw)
+    try:
+        (fmt, ntrks, div, hlen), tracks, flags = F.strict_decode(b)
+    except (F.SMFError, ValueError, IndexError, KeyError):
+        return []
+    if any(f not in BENIGN for f in flags) or fmt not in (0, 1, 2) or div >= 0x8000 or div == 0 or ntrks != len(tracks):
+        return []
+    if 8 + hlen + sum(8 for _ in tracks) > len(b):
+        return []
+    want = []
+    for evs in tracks:
+        ds = events_to_dicts(evs)
+        if ds is None:
+            return []
+        want.append(ds)
+    LAST_CLAIM[0] = True
+    out = []
+    for debug in (False, True):
+        what = f'debug={debug}'
+        try:
+            mid = _load(b, debug, False)
+        except Exception as exc:  # noqa: BLE001
+            out.append(fail('read-raises', f'{what}: {exc!r}; conformant bytes={list(b)[:80]}', exc=exc_sig(exc), cfg=what))
+            continue
+        out += _compare(mid, fmt, div, want, what)
+    return out
+
+
 def run_case(case):
     k = case['kind']
+    if k == 'bytes':
+        return check_bytes(case['bytes'])
     if k == 'write':
         return check_write(case['file'])
     if k == 'read':
@@ -229,6 +296,8 @@ def _rs_opportunity_with_break(tr):
 
 def nontrivial(case):
     k = case['kind']
+    if k == 'bytes':
+        return False
     if k == 'write':
         return any(_rs_opportunity_with_break(tr) for tr in case['file']['tracks'])
     ch = case['choices']
@@ -292,7 +361,37 @@ def volume_cases():
                                                    [[[False, 0, 0]] for _ in range(270)]}}
 
 
+def fuzz_seeds():
+    def note(tm, n):
+        return {'type': 'note_on', 'channel': 1, 'note': n, 'velocity': 64, 'time': tm}
+    files = [
+        (1, 480, [[note(0, 60), note(480, 62), {'type': 'end_of_track', 'time': 0}],
+                  [{'type': 'text', 'text': 'hi', 'time': 0}, {'type': 'sysex', 'data': [1, 2], 'time': 200},
+                   {'type': 'end_of_track', 'time': 1}]]),
+        (0, 96, [[{'type': 'set_tempo', 'tempo': 250000, 'time': 0}, {'type': 'unknown_meta', 'type_byte': 0x60,
+                                                                     'data': [1, 2, 3], 'time': 16384},
+                  {'type': 'songpos', 'pos': 300, 'time': 0}, {'type': 'end_of_track', 'time': 0}]]),
+    ]
+    out = []
+    for fmt, tpb, tracks in files:
+        for rs in (False, True):
+            ch = {'ev': [[[rs, k % 2, k % 3] for k, _ in enumerate(t)] for t in tracks], 'header_extra': 2 if rs else 0}
+            out.append(F.encode_file(fmt, tpb, tracks, ch)[0])
+    # seeds in the structure-aware layout of fuzz/target.py: 4 header bytes, then the track bodies without framing
+    for fmt, tpb, tracks in files:
+        body = bytes(F.encode_track([d for d in tracks[0] if d['type'] != 'end_of_track'], None)[0])
+        out.append(bytes([fmt, 0, (tpb - 1) >> 8, (tpb - 1) & 255]) + body)
+    return out
+
+
 def main(ctx):
+    for b in fuzz_seeds():
+        ctx.check({'kind': 'bytes', 'bytes': list(b)}, classes=('bytes',), sample=False)
+        if not LAST_CLAIM[0]:
+            raise RuntimeError('a fuzz seed is not judged conformant by the reference decoder')
+    if ctx.tier == 'thorough' and not ctx.reduced:
+        from lib.harness import run_fuzz
+        run_fuzz(ctx, 'C08', 400000, fuzz_seeds(), max_len=160)
     for case in volume_cases():
         ctx.check(case, sample=False)
     n = 1500 if ctx.tier == 'quick' else 20000
